@@ -620,16 +620,17 @@ __find_zrng(const struct zif_s z[static 1U], stamp_t t, int min, int max)
 
 	trno = __find_trno(z, t, min, max);
 	res.prev = zif_trans(z, trno);
-	if (UNLIKELY(trno <= 0 && t < res.prev)) {
+	if (UNLIKELY(trno < 0)) {
+		/* before the first transition, assume the first offset has
+		 * always been there, that range ends where the first
+		 * transition begins, or never if none are recorded */
 		res.trno = 0U;
 		res.prev = STAMP_MIN;
-		/* assume the first offset has always been there */
-		res.next = res.prev;
-	} else if (UNLIKELY(trno < 0)) {
-		/* special case where no transitions are recorded */
-		res.trno = 0U;
-		res.prev = STAMP_MIN;
-		res.next = STAMP_MAX;
+		if (LIKELY(z->ntr > 0U)) {
+			res.next = zif_trans(z, 0);
+		} else {
+			res.next = STAMP_MAX;
+		}
 	} else {
 		res.trno = trno;
 		if (LIKELY(trno + 1U < z->ntr)) {
@@ -698,8 +699,14 @@ __offs(struct zif_s z[static 1U], stamp_t t)
 	if (LIKELY(t >= z->cache.prev && t < z->cache.next)) {
 		/* use the cached offset */
 		return z->cache.offs;
+	} else if (UNLIKELY(z->cache.prev >= z->cache.next)) {
+		/* nothing in the cache yet, search them all */
+		min = 0;
+		max = z->ntr;
 	} else if (t >= z->cache.next) {
-		min = z->cache.trno + 1;
+		/* the range before the first transition is cached under
+		 * that transition's number, so start with the cached one */
+		min = z->cache.trno;
 		max = z->ntr;
 	} else if (t < z->cache.prev) {
 		max = z->cache.trno;
